@@ -4,46 +4,67 @@
 #   (-runs, never a time budget) with -seed=<seed> -len_control=0 on a fresh temporary copy of the
 #   seed corpus seeds/<target>/. With jobs>1, <jobs> independent processes are started with seeds
 #   <seed>, <seed>+1, ... each on its own corpus copy.
-#   exit 0: no crash   exit 1: crash (artifact path printed as "CRASH target=... artifact=...")
-#   exit 2: build / setup problem
+#   Output (parsed by vcore's Ctx::fuzz_stage):
+#     STATS target=T seed=S executed=N cov=.. ft=.. corp=.. corp_bytes=.. exec_s=.. new_units=.. peak_rss_mb=..
+#         (one per job that finished without an artifact; numbers are libFuzzer's own final
+#          "DONE cov: ft: corp:" line and -print_final_stats=1 counters)
+#     CRASH target=T seed=S artifact=<path>      (crash-*, oom-*, timeout-* files; kept under $WORK)
+#   exit 0: no crash   exit 1: crash   exit 2: build / setup problem (or a job died without artifact)
+#   /tmp is scratch only: removed on exit 0; on exit 1/2 the work dir is kept for inspection (the
+#   caller copies the artifacts it needs).
 set -u
 T=${1:?target}; RUNS=${2:?runs}; SEED=${3:-1}; JOBS=${4:-1}
 HERE=$(cd "$(dirname "$0")" && pwd)
 cd "$HERE" || exit 2
 export VERIF_ROOT=${VERIF_ROOT:-$(dirname "$HERE")}
 export CARGO_TARGET_DIR=${FUZZ_TARGET_DIR:-$HERE/target}
+export CARGO_NET_OFFLINE=true
 # cargo-fuzz sets RUSTFLAGS itself (sanitizer, coverage), which overrides build.rustflags of
 # .cargo/config.toml; it appends the RUSTFLAGS it finds in the environment, so the cfg goes there.
 export RUSTFLAGS="--cfg libp2p_verif ${RUSTFLAGS:-}"
 [ -d "seeds/$T" ] || { echo "run_fuzz: no seed corpus seeds/$T"; exit 2; }
+[ "$SEED" -gt 0 ] 2>/dev/null || { echo "run_fuzz: seed must be a positive integer (0 = libFuzzer picks a random seed)"; exit 2; }
+# the feature (= check crate) this target needs: required-features of its [[bin]] in Cargo.toml
+FEAT=$(awk -v t="$T" '/^\[\[bin\]\]/{n=""} /^name = /{gsub(/"/,"",$3); n=$3} /^required-features/{ if(n==t){gsub(/[\[\]"]/,"",$3); print $3} }' Cargo.toml)
+[ -n "$FEAT" ] || { echo "run_fuzz: target $T is not declared (with required-features) in $HERE/Cargo.toml"; exit 2; }
 LOG=$(mktemp /tmp/fuzz-build-$T-XXXXXX.log)
-if ! cargo +nightly fuzz build --fuzz-dir "$HERE" "$T" >"$LOG" 2>&1; then
+if ! cargo +nightly fuzz build --fuzz-dir "$HERE" --features "$FEAT" "$T" >"$LOG" 2>&1; then
   echo "run_fuzz: BUILD FAILED target=$T (log $LOG)"; tail -30 "$LOG"; exit 2
 fi
 rm -f "$LOG"
+TRIPLE=$(rustc +nightly -vV | sed -n 's/^host: //p')
+BIN="$CARGO_TARGET_DIR/$TRIPLE/release/$T"
+[ -x "$BIN" ] || { echo "run_fuzz: BUILD FAILED target=$T (no binary $BIN)"; exit 2; }
 WORK=$(mktemp -d /tmp/fuzz-$T-XXXXXX)
+export ASAN_OPTIONS="detect_odr_violation=0:${ASAN_OPTIONS:-}"
 pids=()
 for j in $(seq 0 $((JOBS-1))); do
   mkdir -p "$WORK/corpus$j" "$WORK/art$j"
   cp "seeds/$T/"* "$WORK/corpus$j/" 2>/dev/null
-  cargo +nightly fuzz run --fuzz-dir "$HERE" "$T" "$WORK/corpus$j" -- \
-      -runs="$RUNS" -seed=$((SEED+j)) -len_control=0 -max_len=8192 -artifact_prefix="$WORK/art$j/" \
-      >"$WORK/log$j" 2>&1 &
+  "$BIN" -runs="$RUNS" -seed=$((SEED+j)) -len_control=0 -max_len=8192 -print_final_stats=1 \
+      -artifact_prefix="$WORK/art$j/" "$WORK/corpus$j" >"$WORK/log$j" 2>&1 &
   pids+=($!)
 done
 rc=0
 for j in $(seq 0 $((JOBS-1))); do
   wait "${pids[$j]}"; r=$?
-  arts=$(ls "$WORK/art$j"/crash-* "$WORK/art$j"/oom-* "$WORK/art$j"/timeout-* 2>/dev/null)
+  arts=$(ls "$WORK/art$j"/crash-* "$WORK/art$j"/oom-* "$WORK/art$j"/timeout-* "$WORK/art$j"/leak-* 2>/dev/null)
   if [ -n "$arts" ]; then
     for a in $arts; do echo "CRASH target=$T seed=$((SEED+j)) artifact=$a"; done
-    grep -E "VIOLATION|panicked at|ERROR: " "$WORK/log$j" | head -5
+    grep -aE "VIOLATION|panicked at|ERROR: " "$WORK/log$j" | head -5 | cut -c1-600
     rc=1
   elif [ $r -ne 0 ]; then
     echo "run_fuzz: target=$T job=$j exited $r without an artifact (log $WORK/log$j)"; tail -15 "$WORK/log$j"
     [ $rc -eq 0 ] && rc=2
   else
-    grep -E "^Done [0-9]+ runs|stat::number_of_executed_units" "$WORK/log$j" | tail -1 | sed "s/^/run_fuzz: target=$T seed=$((SEED+j)) /"
+    # "#N DONE cov: C ft: F corp: K/Bb lim: L exec/s: E rss: Rmb" + "stat::name: value" lines
+    done_line=$(grep -aE "^#[0-9]+[[:space:]]+DONE" "$WORK/log$j" | tail -1)
+    num() { echo "$done_line" | sed -n "s/.* $1: \([0-9]*\).*/\1/p"; }
+    stat() { sed -n "s/^stat::$1:[[:space:]]*\([0-9]*\).*/\1/p" "$WORK/log$j" | tail -1; }
+    corp=$(echo "$done_line" | sed -n 's/.* corp: \([0-9]*\)\/.*/\1/p')
+    cb=$(echo "$done_line" | sed -n 's/.* corp: [0-9]*\/\([0-9]*[A-Za-z]*\) .*/\1/p')
+    case "$cb" in *Kb) cb=$(( ${cb%Kb} * 1024 ));; *Mb) cb=$(( ${cb%Mb} * 1048576 ));; *b) cb=${cb%b};; esac
+    echo "STATS target=$T seed=$((SEED+j)) executed=$(stat number_of_executed_units) cov=$(num cov) ft=$(num ft) corp=$corp corp_bytes=$cb exec_s=$(stat average_exec_per_sec) new_units=$(stat new_units_added) peak_rss_mb=$(stat peak_rss_mb)"
   fi
 done
 [ $rc -eq 0 ] && rm -rf "$WORK"
